@@ -105,7 +105,8 @@ Definition erf_lookup (tbl : list (Q * Q)) (a : Q) : Q := erf_lookup_red tbl (Qr
    this enters the power as ulp(wavelength) / (max - min).  Tolerance on the power: 2^-46 * max / (max - min)
    (1.4e-11 for a 1 nm range at 1000 nm); a halved bin is off by 1/(2 bins). *)
 Definition check_psd_const (s : sstate) (impl : list Q) : bool :=
-  let tol := pow2 (-46) * (s_max s / (s_max s - s_min s)) in
+  (* one rounding per accumulated edge: the allowance grows with the number of bins (64 ulp + 1 ulp per bin) *)
+  let tol := (pow2 (-46) + pow2 (-52) * inject_Z (s_bins s)) * (s_max s / (s_max s - s_min s)) in
   forallb2 (fun m i => close 0 tol (m * s_delta s) (i * s_delta s)) (s_psd s) impl.
 
 Definition seval := (Q * Q * Q * Q)%type.      (* x, exp argument (double), exp value, spectrum(x) *)
